@@ -230,7 +230,7 @@ def check_scratch(ctx):
         a = c.args[0]
         inner = a.args[0] if isinstance(a, ast.Call) and dotted(a.func) == "str" and a.args else a
         tested = []
-        for t, pol in G.enclosing_tests(gcr, c):
+        for t, pol in G.path_conditions(gcr, c):
             if pol and isinstance(t, ast.Call) and dotted(t.func) == "isinstance" and len(t.args) == 2 and "Register" in A.norm(t.args[1]):
                 tested.append(A.norm(t.args[0]))
         flows.append((A.norm(inner), tested))
